@@ -7,7 +7,7 @@ sys.path.insert(0, os.path.join(HERE, "tools"))
 import check  # noqa
 ok, msg = check.prepare_coq()
 print("prepare_coq:", ok, msg)
-rc, out, dt = check.sh("timeout 3000 make -k -j16", cwd=check.COQ, timeout=3100)
+rc, out, dt = check.sh("flock %s timeout 3000 make -k -j16" % os.path.join(check.BUILD, "coqmake.lock"), cwd=check.COQ, timeout=3100)
 print("coq make rc=%d in %.0fs" % (rc, dt)); print(out[-1500:])
 ok, hb = check.build_harness()
 print("harness:", ok, hb if ok else hb[-1500:])
